@@ -5,7 +5,7 @@
 (*                                                                         *)
 (* Events (one ndjson line each, written by `lz4verif xxh-record`,         *)
 (* `xxh-big`, `xxh-refconf`):                                              *)
-(*   reset                     the object was Reset                        *)
+(*   reset  h                  the object was Reset; digest right after    *)
 (*   write  chunk v total buf h  one Write call; the logged state after    *)
 (*                             the call and the digest read right after    *)
 (*   oneshot data h            the one-shot function on the whole input    *)
@@ -33,7 +33,8 @@ TraceInit == Init /\ l = 1
 
 IsEvent(e) == l <= Len(Trace) /\ Trace[l].ev = e /\ l' = l + 1
 
-TrReset == IsEvent("reset") /\ Reset
+\* the digest taken right after Reset (before any Write) is the digest of the empty input, whatever the object held
+TrReset == IsEvent("reset") /\ Reset /\ StSum(st') = Trace[l].h
 
 TrWrite ==
     /\ IsEvent("write")
